@@ -1,7 +1,7 @@
 (* C10 — replacing an import with a built function redirects all its uses.  Statements only. *)
 From Coq Require Import List Arith NArith Bool.
 Import ListNotations.
-From Orca Require Import Util Reindex Reorg ReidxProofs CheckReidx SelfReidx.
+From Orca Require Import Util Reindex Reorg ReidxProofs ReidxBind ReidxInv CheckReidx SelfReidx.
 Local Open Scope N_scope.
 
 (* the index-space theorems are shared by the three re-indexed spaces (functions, globals, memories) *)
@@ -27,3 +27,20 @@ Example C10_nonvacuous :
              [mkSite KCode SF 1 (OFunc 3); mkSite KCode SF 0 (OFunc 3); mkSite KCode SF 2 (OFunc 3)] in
   agree c = true /\ dom_of (verdict10 c) = true /\ holds_of (verdict10 c) = true.
 Proof. vm_compute. repeat split; reflexivity. Qed.
+
+(* ---- over every reachable state (Proofs/ReidxInv.v): after a successful replace_import_in_module of the
+   import item at function position k with a body of fingerprint fp, outside D02 / D06 / D26 the id k (which
+   every former use carries) is mapped to the index at which the emitted module has exactly that body.
+   (k is the function-space position: the API takes an ImportsID and uses it as one, D07.) *)
+Theorem C10_replaced_import_id_designates_the_new_body :
+  forall m k fp m' r it, wf m -> Reindex.step m (ImportToLocal k fp) = Ok (m', r) ->
+  nthN (s_items (m_f m)) k = Some it -> is_import it = true ->
+  okD02 SF m' = true -> okD06 SF m' = true -> okD26 SF m' = true ->
+  forall l mp, index_space (m_f m') = Ok (l, mp) ->
+  exists q, lookup mp k = Some q /\ nthN (space_of_model m' l SF) q = Some fp.
+Proof. exact i2l_binding. Qed.
+Print Assumptions C10_replaced_import_id_designates_the_new_body.
+Theorem C10_wf_is_an_invariant_of_every_edit :
+  forall m o m' r, wf m -> Reindex.step m o = Ok (m', r) -> wf m'.
+Proof. exact step_wf. Qed.
+Print Assumptions C10_wf_is_an_invariant_of_every_edit.
